@@ -161,7 +161,7 @@ def run(ctx):
     from contracts import c_flatten as cf
     ctx.verify(cf.engine(), cf.VERIFY)
     # flattened names: separator guards of walk(), make_name, and injectivity of the ':'-join over them
-    for fn, minimum in ((cf.walk_guard_obligations, 4), (cf.make_name_obligations, 3)):
+    for fn, minimum in ((cf.walk_guard_obligations, 4), (lambda: cf.make_name_obligations(5 if ctx.tier == "thorough" else 3), 3)):
         key, obs, info = fn()
         for u in info.get("unsupported", []):
             ctx.unsupported.append((key, u))
